@@ -97,6 +97,15 @@ def bulk_load_every_item(F):
     return out
 
 
+def _c14_accounting(F):
+    import props.C14 as C14
+    out = []
+    for c in (C14.insert_accounting("insert"), C14.insert_accounting("bulk_insert"), C14.bulk_load_accounting):
+        r = c(F)
+        out.extend(r if isinstance(r, list) else [r])
+    return out
+
+
 def insert_decision(F):
     """validate_insert_request: Ok <=> doc_id >= MIN_DOC_ID and the embedding is non-empty, at most MAX_EMBEDDING_DIM long and all
     finite — the whole decision, for every value of doc_id and of the length (DECIDES; the emptiness and finiteness tests are
@@ -117,6 +126,8 @@ MOS = [
        stream_item_checks, functions=[("bin/kyrodb_server.rs", "bulk_insert"), ("bin/kyrodb_server.rs", "bulk_load_hnsw")], target="kyrodb_server"),
     MO("O15.8/bulk_load_every_item", "TieredEngine::bulk_load_cold_tier: every item of a batch reaches HnswBackend::insert before the next is taken; `loaded` / `failed` move only on the insert's Ok / Err arm (a refused item cannot erase or stand in for another item of the stream)",
        bulk_load_every_item, functions=[("tiered_engine.rs", "bulk_load_cold_tier")]),
+    MO("O15.9/refused_item_accounting", "a refused write leaves no reservation behind: Insert / BulkInsert give the slot of a failed new document back, BulkLoadHnsw releases reserved - (new ids that now exist) (same obligations as C14 O14.1)",
+       lambda F: _c14_accounting(F), functions=[("bin/kyrodb_server.rs", n) for n in ("insert", "bulk_insert", "bulk_load_hnsw")], target="kyrodb_server"),
     MO("O15.5/insert_decision", "validate_insert_request: Ok <=> doc_id >= MIN_DOC_ID, embedding non-empty, length <= MAX_EMBEDDING_DIM, all lanes finite — whole decision for every doc_id and length (DECIDES)",
        insert_decision, functions=[("api_validation.rs", "validate_insert_request")]),
     MO("O15.4/engine_refusal", "every engine write path goes through HnswBackend::insert, which runs normalize_in_place_if_needed and the index's own acceptance test (finite lanes, norm band) before the WAL append "
